@@ -71,10 +71,14 @@ func Gen(t *rapid.T, o Opts) Layout {
 		codecs = []int8{0, 0, 1, 2, 3, 4}
 	}
 	for remaining > 0 {
-		// formats only move forward (a log upgraded mid-way)
+		// formats mostly move forward (a log upgraded mid-way); now and then backward (message.format.version lowered again)
 		if magic < o.MaxMagic && rapid.IntRange(0, 3).Draw(t, "upgrade") == 0 {
 			magic++
 			lab["mixed_formats"] = true
+		} else if magic > o.MinMagic && rapid.IntRange(0, 7).Draw(t, "downgrade") == 0 {
+			magic--
+			lab["mixed_formats"] = true
+			lab["format_downgraded"] = true
 		}
 		if o.Holes && rapid.IntRange(0, 4).Draw(t, "gapBetween") == 0 {
 			off += int64(rapid.IntRange(1, 4).Draw(t, "gapLen"))
